@@ -88,8 +88,88 @@ def structural(g, C, obs):
             in_else = {id(m) for s in tail for m in ast.walk(s)}
             gm = [n for n in own if isinstance(n, ast.Call) and isinstance(n.func, ast.Name) and n.func.id == "get_module" and n.args and ast.unparse(n.args[0]) == "module_path"]
             ok2 = len(gm) == 1 and id(gm[0]) in in_else
+    # filename_from_mod_or_filename ("module name or file name", in front of the model / routes parsers): importlib's find_spec
+    # imports the parent package of a dotted name -- for 'models.py' that is `import models`, i.e. it RUNS the file that is
+    # about to be analysed.  It may therefore be reached only for a name that is neither an existing file nor a path.
+    f = g.funcs.get("cdd.shared.pure_utils:filename_from_mod_or_filename")
+    ok3, d3 = None, "function not found"
+    if f is not None:
+        ok3, d3 = find_spec_guarded(g, f)
+    obs.append(("filename_from_mod_or_filename/find_spec-only-for-a-name-that-is-no-file", ok3, d3))
     obs.append(("gen/prepend-imports-only", ok1, "the compiled module body is get_at_root(parse(prepend), (Import, ImportFrom))"))
     obs.append(("gen/get_module-not-on-file-path", ok2, "get_module(module_path) is in the else of `if path.isfile(input_mapping) / elif path.isdir(...)`"))
+
+
+def find_spec_guarded(g, f):
+    """Every find_spec(x) call of f is evaluated only when `path.isfile(x)` has been tested false on the way to it
+    (orelse of a conditional whose test has isfile(x) as a disjunct, body of one that has `not isfile(x)` as a conjunct,
+    or a later operand of such an `and` / `or` chain)."""
+    fn = f.node
+    parent = {}
+    for n in ast.walk(fn):
+        for c in ast.iter_child_nodes(n):
+            parent[id(c)] = n
+    own = list(termination._own_nodes(f))
+    calls = [c for c in own if isinstance(c, ast.Call) and g.dotted_of(f.mod, c.func, f.locals) == "importlib.util.find_spec"]
+    if not calls:
+        return True, "no find_spec call left in the function"
+    params = {a.arg for a in fn.args.args}
+    rebinds = {n.id for n in own if isinstance(n, ast.Name) and isinstance(n.ctx, ast.Store)}
+
+    def is_isfile(e, arg):
+        return isinstance(e, ast.Call) and g.dotted_of(f.mod, e.func, f.locals) in ("os.path.isfile", "os.path.exists") and len(e.args) == 1 and ast.unparse(e.args[0]) == arg
+
+    def disjuncts(t):
+        return [x for v in t.values for x in disjuncts(v)] if isinstance(t, ast.BoolOp) and isinstance(t.op, ast.Or) else [t]
+
+    def conjuncts(t):
+        return [x for v in t.values for x in conjuncts(v)] if isinstance(t, ast.BoolOp) and isinstance(t.op, ast.And) else [t]
+
+    def false_when_reached(test, arg, branch):
+        if branch == "orelse":
+            return any(is_isfile(d, arg) for d in disjuncts(test))
+        return any(isinstance(c_, ast.UnaryOp) and isinstance(c_.op, ast.Not) and is_isfile(c_.operand, arg) for c_ in conjuncts(test))
+
+    for c in calls:
+        if len(c.args) != 1 or not isinstance(c.args[0], ast.Name) or c.args[0].id not in params or c.args[0].id in rebinds:
+            return False, "find_spec (line %d) is not called on an unmodified parameter" % c.lineno
+        arg = c.args[0].id
+        node, guarded = c, False
+        while id(node) in parent and not guarded:
+            up = parent[id(node)]
+            if isinstance(up, (ast.IfExp, ast.If)):
+                in_body = node is up.body if isinstance(up, ast.IfExp) else any(node is x for x in up.body)
+                in_else = node is up.orelse if isinstance(up, ast.IfExp) else any(node is x for x in up.orelse)
+                if (in_else and false_when_reached(up.test, arg, "orelse")) or (in_body and false_when_reached(up.test, arg, "body")):
+                    guarded = True
+            elif isinstance(up, ast.BoolOp):
+                before = up.values[: next(i for i, v in enumerate(up.values) if v is node)]
+                if isinstance(up.op, ast.Or) and any(is_isfile(d, arg) for b in before for d in disjuncts(b)):
+                    guarded = True
+                if isinstance(up.op, ast.And) and any(isinstance(b, ast.UnaryOp) and isinstance(b.op, ast.Not) and is_isfile(b.operand, arg) for b in before):
+                    guarded = True
+            node = up
+        if not guarded:
+            return False, "find_spec(%s) at line %d can be reached for an existing file: no `path.isfile(%s)` test decides against it on the way" % (arg, c.lineno, arg)
+    return True, "%d find_spec call(s), each reached only after path.isfile(<the same parameter>) was false" % len(calls)
+
+
+def find_spec_replay():
+    """The real function on the bare name of an existing file whose directory is importable (cd there): does it run the file?"""
+    import tempfile
+    import shutil
+
+    d = tempfile.mkdtemp(prefix="c17fs_")
+    try:
+        open(os.path.join(d, "models_c17.py"), "w").write("open(%r, 'w').write('ran')\n" % os.path.join(d, "EXECUTED.marker"))
+        code = "import sys; sys.path.insert(0, %r); sys.path.insert(0, ''); from cdd.shared.pure_utils import filename_from_mod_or_filename as f; print(f('models_c17.py'))" % common.REPO
+        r = subprocess.run([sys.executable, "-c", code], cwd=d, capture_output=True, text=True, timeout=120)
+        if os.path.exists(os.path.join(d, "EXECUTED.marker")):
+            return {"call": "cdd.shared.pure_utils.filename_from_mod_or_filename('models_c17.py')", "cwd": "a directory that holds models_c17.py (and is importable, as with `cd dir && python -m cdd gen_routes --model-path models_c17.py`)",
+                    "what": "the module-level code of the analysed file ran (it wrote EXECUTED.marker); returned %r" % r.stdout.strip()[-120:]}
+        return None
+    finally:
+        shutil.rmtree(d, ignore_errors=True)
 
 
 def charset_obligations(g, C, obs):
@@ -236,7 +316,18 @@ def main(tier, write_baseline=False):
     structural(g, C, obs)
     charset_obligations(g, C, obs)
     eval_globals_obligation(obs)
+    rule_inputs = {}
     for n, ok, detail in obs:
+        if ok is False and n.startswith("filename_from_mod_or_filename/"):
+            # shape rule: a failure counts only if the real function then runs an existing file (else: undecided)
+            try:
+                fi = find_spec_replay()
+            except Exception:
+                fi = None
+            if fi is None:
+                ok, detail = None, detail + " -- but the real function did not run the file in the replay: undecided"
+            else:
+                rule_inputs["C17/" + n] = fi
         st = UNDECIDED if ok is None else (PROVED if ok else REFUTED)
         run.add("C17/" + n, st, "rule-engine", detail=detail)
         if ok is False:
@@ -272,7 +363,7 @@ def main(tier, write_baseline=False):
         if name in seen:
             continue
         seen.add(name)
-        run.violation(name, detail, failing_input=inp, solver_output={"rule": detail})
+        run.violation(name, detail, failing_input=rule_inputs.get(name) or inp, solver_output={"rule": detail})
     if inp is not None and not refuted:
         run.violation("C17/bounded/audit", "run-time contract violated under the audit hook: %s" % json.dumps(inp)[:300], failing_input=inp)
     common.apply_controls(run, tier)
